@@ -23,6 +23,7 @@
 //!                                      buffers of each explicit operation; obs carries the number
 //!                                      of bytes accepted instead of the bytes
 //!   obs = per-op results | number of inner calls | sink bytes
+//!   ixb / crc (wave 7): see harness/src/shared/c14_deep7.rs; mta / ixc / awa / afq / awfmt / abz: c14_deep4.rs
 //! Implementation-only oracles (obs "-"):
 //!   sweep fmt ending seed kind         Fail(kind) at every inner call k < N (sampled if N > 200)
 //!   short fmt ending seed pattern      short-write / Interrupted patterns
@@ -246,6 +247,8 @@ macro_rules! op {
 
 #[path = "../shared/c14_deep4.rs"]
 mod c14_deep4;
+#[path = "../shared/c14_deep7.rs"]
+mod c14_deep7;
 
 // ---------------------------------------------------------------------------------------------
 // fixtures
@@ -2246,6 +2249,10 @@ fn generate(rng: &mut Rng, tier: &str, w: &mut CaseWriter) {
     c14_deep4::gen_ixc(rng, thorough, w);
     c14_deep4::gen_async(rng, thorough, w);
     c14_deep4::gen_awfmt(rng, thorough, w);
+    c14_deep7::gen_ixb(rng, thorough, w);
+    c14_deep7::gen_fol(rng, thorough, w);
+    c14_deep7::gen_crc(rng, thorough, w);
+    c14_deep4::gen_abz(rng, thorough, w);
 
     // --- L3: failure at every inner call, for every writer of the quantifier
     let rounds = if thorough { 10 } else { 2 };
@@ -2545,6 +2552,9 @@ fn run(c: &Case) -> Obs {
         "ixc" => c14_deep4::run_ixc(c),
         "awa" | "afq" => c14_deep4::run_async(c),
         "awfmt" => c14_deep4::run_awfmt(c),
+        "ixb" => c14_deep7::run_ixb(c),
+        "crc" => c14_deep7::run_crc(c),
+        "abz" => c14_deep4::run_abz(c),
         "fob" => run_fob(c),
         "cram" => run_cram(c),
         "fsfull" => run_fsfull(c),
